@@ -11,17 +11,40 @@ pub const BACKEND: &str = "native-tls";
 #[cfg(feature = "rustls-backend")]
 pub const BACKEND: &str = "rustls";
 
+/// First certificate of certs/<name>.crt as DER.
+fn first_der(name: &str) -> Vec<u8> {
+    use base64::Engine;
+    let text = String::from_utf8(pem(name, "crt")).unwrap();
+    let mut b64 = String::new();
+    for l in text.lines() {
+        if l.starts_with("-----END") {
+            break;
+        }
+        if !l.starts_with("-----") {
+            b64.push_str(l.trim());
+        }
+    }
+    base64::engine::general_purpose::STANDARD.decode(b64).unwrap()
+}
+
+#[cfg(not(feature = "rustls-backend"))]
+fn cert_obj(name: &str) -> native_tls::Certificate {
+    native_tls::Certificate::from_der(&first_der(name)).unwrap()
+}
+
+#[cfg(feature = "rustls-backend")]
+fn cert_obj(name: &str) -> rustls::pki_types::CertificateDer<'static> {
+    rustls::pki_types::CertificateDer::from(first_der(name))
+}
+
 #[cfg(not(feature = "rustls-backend"))]
 fn root_cert() -> native_tls::Certificate {
-    native_tls::Certificate::from_pem(&pem("root", "crt")).unwrap()
+    cert_obj("root")
 }
 
 #[cfg(feature = "rustls-backend")]
 fn root_cert() -> rustls::pki_types::CertificateDer<'static> {
-    use base64::Engine;
-    let text = String::from_utf8(pem("root", "crt")).unwrap();
-    let b64: String = text.lines().filter(|l| !l.starts_with("-----")).collect();
-    rustls::pki_types::CertificateDer::from(base64::engine::general_purpose::STANDARD.decode(b64).unwrap())
+    cert_obj("root")
 }
 
 #[derive(Clone, Copy, Debug, PartialEq, Eq, Serialize, Deserialize)]
@@ -54,6 +77,8 @@ pub enum Scope {
     Clone,
     /// set on the session after the request was created
     SessionLater,
+    /// the flags are switched ON on the session and OFF again on the request (roots stay added)
+    OnThenOff,
 }
 
 #[derive(Clone, Copy, Debug, PartialEq, Eq, Serialize, Deserialize)]
@@ -92,9 +117,10 @@ fn cert_file(c: &Case) -> &'static str {
 /// The property's rule. `effective` = were the flags / the root set where they apply to the request.
 fn reference_ok(c: &Case) -> bool {
     let effective = matches!(c.scope, Scope::Session | Scope::Request);
-    let aic = c.accept_invalid_certs && effective;
-    let aih = c.accept_invalid_hostnames && effective;
-    let root = c.root_added && effective;
+    let flags_effective = effective && c.scope != Scope::OnThenOff;
+    let aic = c.accept_invalid_certs && flags_effective;
+    let aih = c.accept_invalid_hostnames && flags_effective;
+    let root = c.root_added && (effective || c.scope == Scope::OnThenOff);
     let chain_ok = matches!(c.cert, CertKind::Good | CertKind::Expired | CertKind::NotYetValid) && root;
     let in_validity = !matches!(c.cert, CertKind::Expired | CertKind::NotYetValid);
     aic || (chain_ok && in_validity && (c.name_matches || aih))
@@ -144,17 +170,26 @@ pub fn run(c: &Case) -> Obs {
     };
     let mut session = attohttpc::Session::new();
     let mut other = session.clone();
+    // a flag that is off in the cell is never touched (it must be off by default)
     let settings = |s: &mut attohttpc::Session| {
-        s.danger_accept_invalid_certs(c.accept_invalid_certs);
-        s.danger_accept_invalid_hostnames(c.accept_invalid_hostnames);
+        if c.accept_invalid_certs {
+            s.danger_accept_invalid_certs(true);
+        }
+        if c.accept_invalid_hostnames {
+            s.danger_accept_invalid_hostnames(true);
+        }
         if c.root_added {
             s.add_root_certificate(root_cert());
         }
     };
     let on_builder = |rb: attohttpc::RequestBuilder| {
-        let mut rb = rb
-            .danger_accept_invalid_certs(c.accept_invalid_certs)
-            .danger_accept_invalid_hostnames(c.accept_invalid_hostnames);
+        let mut rb = rb;
+        if c.accept_invalid_certs {
+            rb = rb.danger_accept_invalid_certs(true);
+        }
+        if c.accept_invalid_hostnames {
+            rb = rb.danger_accept_invalid_hostnames(true);
+        }
         if c.root_added {
             rb = rb.add_root_certificate(root_cert());
         }
@@ -183,6 +218,18 @@ pub fn run(c: &Case) -> Obs {
             settings(&mut other);
             ps(session.get(&url))
         }
+        Scope::OnThenOff => {
+            // whatever was switched on for the session is switched off again on the request
+            settings(&mut session);
+            let mut rb = ps(session.get(&url));
+            if c.accept_invalid_certs {
+                rb = rb.danger_accept_invalid_certs(false);
+            }
+            if c.accept_invalid_hostnames {
+                rb = rb.danger_accept_invalid_hostnames(false);
+            }
+            rb
+        }
         Scope::SessionLater => {
             let rb = ps(session.get(&url));
             settings(&mut session);
@@ -210,7 +257,7 @@ pub fn cases() -> Vec<Case> {
                 for aih in [false, true] {
                     for root_added in [false, true] {
                         for route in [Route::Direct, Route::Tunnel, Route::HttpsProxy] {
-                            for scope in [Scope::Session, Scope::Request, Scope::Sibling, Scope::Clone, Scope::SessionLater] {
+                            for scope in [Scope::Session, Scope::Request, Scope::Sibling, Scope::Clone, Scope::SessionLater, Scope::OnThenOff] {
                                 for host in [HostKind::Domain, HostKind::V4, HostKind::V6] {
                                     if host != HostKind::Domain && scope != Scope::Session && scope != Scope::Request {
                                         continue;
@@ -353,3 +400,77 @@ pub fn double_tls_cells() -> Vec<(String, String, Value)> {
     }
     out
 }
+
+//
+// Chains and anchors outside the main matrix. (a) The certificate the caller added is the very
+// leaf the server presents and that leaf is expired, not yet valid or issued for another name: an
+// added certificate is a trust anchor for chain building, it waives neither the validity period nor
+// the name match. (b) Chains with a structural fault - a leaf "issued" by an end-entity certificate
+// (CA:FALSE), an intermediate beyond its issuer's path length - do not chain to the added root, with
+// or without accept_invalid_hostnames (which waives only the name match).
+//
+pub fn odd_chain_cells() -> Vec<(String, String, Value)> {
+    let lab = lab();
+    let mut out = Vec::new();
+    // (server presents, certificate added by the caller, name matches good.test, what it is)
+    let menu: [(&str, &str, bool, &str); 7] = [
+        ("expired", "expired", true, "the added certificate is the expired leaf itself"),
+        ("notyet", "notyet", true, "the added certificate is the not-yet-valid leaf itself"),
+        ("expiredother", "expiredother", false, "the added certificate is the expired other-name leaf itself"),
+        ("othername", "othername", false, "the added certificate is the other-name leaf itself"),
+        ("forged", "root", true, "leaf issued by an end-entity certificate (CA:FALSE) that chains to the added root"),
+        ("deep", "root", true, "chain root -> CA(pathlen 0) -> sub-CA -> leaf, path length exceeded"),
+        ("good", "root", true, "control: the plain good chain"),
+    ];
+    for (presented, added, name_matches, what) in menu {
+        for tunnel in [false, true] {
+            for aih in [false, true] {
+                let _ = lab.take_log();
+                let (url, proxy) = if tunnel {
+                    lab.proxy.set(|cfg| {
+                        cfg.outer_cert = None;
+                        cfg.inner_cert = Some(presented.to_string());
+                    });
+                    attohttpc::verif::set_resolution("proxy.test", Some(vec![lab.proxy.addr]));
+                    ("https://good.test:8443/r".to_string(), Some(url::Url::parse("http://proxy.test:3128").unwrap()))
+                } else {
+                    lab.origin4.set(|cfg| cfg.outer_cert = Some(presented.to_string()));
+                    attohttpc::verif::set_resolution("good.test", Some(vec![lab.origin4.addr]));
+                    (format!("https://good.test:{}/r", lab.origin4.addr.port()), None)
+                };
+                let mut rb = attohttpc::get(&url).add_root_certificate(cert_obj(added)).timeout(std::time::Duration::from_secs(10));
+                if aih {
+                    rb = rb.danger_accept_invalid_hostnames(true);
+                }
+                rb = match proxy {
+                    Some(u) => rb.proxy_settings(attohttpc::ProxySettings::builder().https_proxy(u).build()),
+                    None => rb.proxy_settings(attohttpc::ProxySettings::builder().build()),
+                };
+                let res = crate::common::guarded(|| rb.send().and_then(|r| r.bytes()));
+                attohttpc::verif::set_resolution("good.test", None);
+                attohttpc::verif::set_resolution("proxy.test", None);
+                let ok = matches!(&res, Ok(Ok(b)) if b == b"ok");
+                let desc = format!(
+                    "[{BACKEND}] {} server presents {presented}.crt, caller added {added}.crt ({what}), accept_invalid_hostnames {aih}",
+                    if tunnel { "tunnelled:" } else { "direct:" }
+                );
+                let case = json!({"engine": "c14", "backend": BACKEND, "odd_chain": true});
+                let shown: String = format!("{res:?}").chars().take(160).collect();
+                if presented == "good" {
+                    if !ok {
+                        out.push(("C14:valid-peer-rejected:OddChainControl".to_string(), format!("{desc}: the exchange failed ({shown})"), case));
+                    }
+                    continue;
+                }
+                // the only cell the rule leaves open: pinned other-name leaf with the name match waived
+                let open = presented == "othername" && aih;
+                let _ = name_matches;
+                if ok && !open {
+                    out.push((format!("C14:unauthenticated-peer-accepted:OddChain:{presented}"), format!("{desc}: the exchange succeeded ({shown})"), case));
+                }
+            }
+        }
+    }
+    out
+}
+pub const ODD_CHAIN_CELLS: u64 = 7 * 2 * 2;
